@@ -6,7 +6,14 @@ import pv
 
 def plan(which, rng, thorough=True):
     runs = []
-    if which == "C09":
+    if which == "C19":
+        # real handled signals (no SA_RESTART) during timed blocking calls: lower bound on the time-out, data in time is delivered
+        for fam in ((4, 6) if thorough else (4,)):
+            runs.append(["sigdata", str(fam), "500"])
+            runs.append(["timed", str(fam), "60", "1"])
+            if thorough:
+                runs += [["sigdata", str(fam), "1500"], ["timed", str(fam), "150", "1"]]
+    elif which == "C09":
         for fam in (4, 6):
             for mode in range(4):
                 for storm in (1, 0):
@@ -23,10 +30,11 @@ def plan(which, rng, thorough=True):
             for T in (60, 150):
                 for storm in (0, 1):
                     runs.append(["timed", str(fam), str(T), str(storm)])
+            runs.append(["sigdata", str(fam), "800"])
     return runs
 
 
-def run_real(chk, cfg, which):
+def run_real(chk, cfg, which, thorough=True):
     """returns True when a concrete failure was reported"""
     try:
         exe = pv.build_harness("socket_real", cfg, ["socket_real.c"], repo_files=None, san="asan")
@@ -35,7 +43,7 @@ def run_real(chk, cfg, which):
         return False
     found = False
     res = []
-    for args in plan(which, chk.rng):
+    for args in plan(which, chk.rng, thorough):
         rc, out, err = pv.run_proc([exe] + args, "", timeout=180)
         line = (out.strip().splitlines() or [""])[-1]
         chk.count("real " + " ".join(args))
